@@ -73,6 +73,22 @@ def rep_phase(chk, prop, run_fn, regions, cases, component="representation opera
     return {"res": res, "ecs": ecs, "eos": eos, "terms": terms, "corr": corr, "orac": orac, "hits": hits, "operations": dist, "errors": errs}
 
 
+def variation_phase(chk, prop, run_fn, regions, replay, seed, tier, component):
+    """the programs returned by every representation after create / map / mutate / crossover, judged by [run_fn].
+    Returns (phase result or None, rep_replay): with rep_replay the caller skips its other components."""
+    rep_replay = bool(replay and "case_full" in replay["replay"])
+    rcases = [replay["replay"]["case_full"]] if rep_replay else [] if replay else rc.gen_variation_cases(flow.rng(seed, prop.lower() + "r"), tier)
+    ph = rep_phase(chk, prop, run_fn, regions, rcases, component=component) if rcases else None
+    if rep_replay and ph:
+        print("replayed", len(ph["ecs"]), "operations: correspondence", "FAILS" if ph["corr"] else "ok", "| contract", "FAILS" if ph["orac"] else "holds")
+    return ph, rep_replay
+
+
+def variation_cov(ph):
+    return ({"operations": ph["operations"], "errors": ph["errors"], "known_region_hits": ph["hits"],
+             "correspondence_mismatches": len(ph["corr"]), "oracle_failures": len(ph["orac"])} if ph else None)
+
+
 def run_rep(prop, run_fn, regions, trusted, rule, tier, seed, replay, extra=None):
     chk = core.Check(prop, tier, seed)
     proof = core.proof_step(prop, thorough=(tier == "thorough"))
